@@ -78,6 +78,9 @@ variable {S α : Type} [Num α] [HasLog α]
 /-- does the iteration take the goal-bias branch? -/
 def fromGoal (cfg : Cfg S α) (dr : Draw S α) : Bool := decide (dr.bias < cfg.goalBias) && cfg.canSample
 
+/-- the state in `xstate` when `checkMotion` is called -/
+def xstateOf (cfg : Cfg S α) (dr : Draw S α) : S := if fromGoal cfg dr then dr.goalSample else dr.nearSample
+
 /-- `disc_.updateCell(ecell)` after `ecell->data->score` was multiplied by `f` (`1` = untouched) -/
 def updateCell (cfg : Cfg S α) (d : Disc α) (x : Coord) (scale : Option α) : Disc α :=
   match lookup d.cdata x with
@@ -95,7 +98,7 @@ def step (cfg : Cfg S α) (st : St S α) (dr : Draw S α) : St S α :=
     match st.tree[m]? with
     | none => { st with disc := d2 }               -- unreachable: stored motions are tree indices
     | some existing =>
-      let x := if fromGoal cfg dr then dr.goalSample else dr.nearSample
+      let x := xstateOf cfg dr
       let r := cfg.checkMotion existing.state x
       let keep := r.1 || decide (cfg.minValidFrac < r.2.2)
       if keep then
